@@ -497,6 +497,94 @@ func TestC32(t *testing.T) {
 		r.Floor("single_ext_types_compared", 20)
 	}
 	r.Count("json_hellos_compared", int64(representable))
+	// (d) every dictionary name THROUGH the JSON importer: a document that names one cipher
+	// suite / group / signature scheme / compression algorithm of the value-indexed tables must
+	// yield exactly that code point in the spec (the tables agreeing with each other says
+	// nothing about how the importer looks the names up)
+	{
+		through := func(kind string, value uint16, name string, doc string, get func(sp *tls.ClientHelloSpec) (uint16, bool)) {
+			var sp tls.ClientHelloSpec
+			var err error
+			pn, pv := recoverPanic(func() { err = sp.UnmarshalJSON([]byte(doc)) })
+			sig := map[string]string{"kind": "json_name_lookup", "table": kind}
+			if pn {
+				r.Violation(sig, fmt.Sprintf("%s %q: UnmarshalJSON panicked: %v", kind, name, pv), map[string]any{"doc": doc})
+				return
+			}
+			if err != nil {
+				r.Violation(sig, fmt.Sprintf("%s name %q (%#04x) of the dictionary is refused by the JSON importer: %v", kind, name, value, err), map[string]any{"doc": doc})
+				return
+			}
+			got, ok := get(&sp)
+			if !ok || got != value {
+				r.Violation(sig, fmt.Sprintf("%s name %q imported as %#04x (found=%v), the dictionary says %#04x", kind, name, got, ok, value), map[string]any{"doc": doc})
+			}
+			r.Count("dictionary_names_through_json", 1)
+			r.Case("json-name|"+kind+"|"+name, true)
+		}
+		q := func(s string) string { b, _ := json.Marshal(s); return string(b) }
+		for v, n := range dicttls.DictCipherSuiteValueIndexed {
+			if wire.IsGREASE(v) || strings.Contains(strings.ToUpper(n), "GREASE") {
+				continue
+			}
+			doc := fmt.Sprintf(`{"cipher_suites":[%s],"compression_methods":["NULL"],"extensions":[]}`, q(n))
+			through("cipher_suite", v, n, doc, func(sp *tls.ClientHelloSpec) (uint16, bool) {
+				if len(sp.CipherSuites) != 1 {
+					return 0, false
+				}
+				return sp.CipherSuites[0], true
+			})
+		}
+		for v, n := range dicttls.DictSupportedGroupsValueIndexed {
+			if wire.IsGREASE(v) || strings.Contains(strings.ToUpper(n), "GREASE") {
+				continue
+			}
+			doc := fmt.Sprintf(`{"cipher_suites":["TLS_AES_128_GCM_SHA256"],"compression_methods":["NULL"],"extensions":[{"name":"supported_groups","named_group_list":[%s]}]}`, q(n))
+			through("supported_groups", v, n, doc, func(sp *tls.ClientHelloSpec) (uint16, bool) {
+				for _, e := range sp.Extensions {
+					if sc, ok := e.(*tls.SupportedCurvesExtension); ok && len(sc.Curves) == 1 {
+						return uint16(sc.Curves[0]), true
+					}
+				}
+				return 0, false
+			})
+			doc = fmt.Sprintf(`{"cipher_suites":["TLS_AES_128_GCM_SHA256"],"compression_methods":["NULL"],"extensions":[{"name":"key_share","client_shares":[{"group":%s,"key_exchange":[1,2,3]}]}]}`, q(n))
+			through("key_share", v, n, doc, func(sp *tls.ClientHelloSpec) (uint16, bool) {
+				for _, e := range sp.Extensions {
+					if ks, ok := e.(*tls.KeyShareExtension); ok && len(ks.KeyShares) == 1 {
+						return uint16(ks.KeyShares[0].Group), true
+					}
+				}
+				return 0, false
+			})
+		}
+		for v, n := range dicttls.DictSignatureSchemeValueIndexed {
+			if wire.IsGREASE(v) {
+				continue
+			}
+			doc := fmt.Sprintf(`{"cipher_suites":["TLS_AES_128_GCM_SHA256"],"compression_methods":["NULL"],"extensions":[{"name":"signature_algorithms","supported_signature_algorithms":[%s]}]}`, q(n))
+			through("signature_algorithms", v, n, doc, func(sp *tls.ClientHelloSpec) (uint16, bool) {
+				for _, e := range sp.Extensions {
+					if sa, ok := e.(*tls.SignatureAlgorithmsExtension); ok && len(sa.SupportedSignatureAlgorithms) == 1 {
+						return uint16(sa.SupportedSignatureAlgorithms[0]), true
+					}
+				}
+				return 0, false
+			})
+		}
+		for v, n := range dicttls.DictCertificateCompressionAlgorithmValueIndexed {
+			doc := fmt.Sprintf(`{"cipher_suites":["TLS_AES_128_GCM_SHA256"],"compression_methods":["NULL"],"extensions":[{"name":"compress_certificate","algorithms":[%s]}]}`, q(n))
+			through("compress_certificate", v, n, doc, func(sp *tls.ClientHelloSpec) (uint16, bool) {
+				for _, e := range sp.Extensions {
+					if cc, ok := e.(*tls.UtlsCompressCertExtension); ok && len(cc.Algorithms) == 1 {
+						return uint16(cc.Algorithms[0]), true
+					}
+				}
+				return 0, false
+			})
+		}
+		r.Floor("dictionary_names_through_json", 400)
+	}
 	r.Floor("json_hellos_compared", 50)
 	r.Floor("dict_entries", 500)
 }
